@@ -1071,3 +1071,23 @@ mod tests {
         assert_eq!(None, table.take_applied_pending());
     }
 }
+
+#[cfg(feature = "verif-hooks")]
+impl<TNodeId, TVal> KBucketsTable<TNodeId, TVal>
+where
+    TNodeId: Clone,
+    TVal: Eq,
+{
+    /// Makes the pending-node deadline of one bucket elapse now (verification hook; the only
+    /// way to let a long pending timeout pass in the middle of an operation sequence). Returns
+    /// whether the bucket had a pending node.
+    pub fn verif_expire_pending(&mut self, bucket_index: usize) -> bool {
+        match self.buckets.get_mut(bucket_index).and_then(|b| b.pending_mut()) {
+            Some(pending) => {
+                pending.set_ready_at(Instant::now());
+                true
+            }
+            None => false,
+        }
+    }
+}
